@@ -474,16 +474,26 @@ Qed.
 Ltac outproj := cbn [o_version o_suite o_group o_sig o_csig o_ems o_srtp o_mki_client o_mki_server o_alpn o_cid
                      o_resumed o_server_cert o_client_cert o_cert_requested o_ch_exts o_sh_exts].
 
+Lemma common_sigs_In remote local x :
+  In x (common_sigs remote local) <-> In x remote /\ (local = [] \/ In x local).
+Proof.
+  unfold common_sigs. destruct local as [|a l].
+  - split; [intro H; split; auto | tauto].
+  - rewrite filter_In, mem_In. split; [intros [H1 H2]; split; auto | intros [H1 [H2|H2]]; [discriminate | tauto]].
+Qed.
+
 Lemma client_auth_sig_spec is13 ck sk f b cs :
   client_auth_sig is13 ck sk f = ROk (b, cs) ->
   (b = false /\ cs = 0) \/
   (b = true /\ f_cert_req f = true /\ c_key (k_cfg ck) <> 0 /\ In cs (k_sigs sk) /\
+   (k_sigs ck = [] \/ In cs (k_sigs ck)) /\
    sig_fits is13 (c_key (k_cfg ck)) cs = true).
 Proof.
   unfold client_auth_sig. destruct (f_cert_req f).
   - destruct (c_key (k_cfg ck) =? 0) eqn:Ek.
     + intro H. inversion H. now left.
     + intro H. rstepn H sg E. inversion H; subst. apply of_opt_ok in E. apply select_sig_some in E.
+      destruct E as [E1 E2]. apply common_sigs_In in E1.
       apply N.eqb_neq in Ek. right. tauto.
   - intro H. inversion H. now left.
 Qed.
@@ -496,7 +506,8 @@ Record client_sound (v : N) (ck sk : conn) (cs : list N) (h : hello) (f : server
   cl_chain : o_server_cert o = true -> o_resumed o = false ->
              (s_auth (f_suite f) =? g11_auth_certificate) = true \/ v = v13 ->
              c_skip_verify (k_cfg ck) = true \/ In (c_chain_sig (k_cfg sk)) (cert_algs ck);
-  cl_csig : o_csig o <> 0 -> In (o_csig o) (k_sigs sk) /\ o_client_cert o = true /\
+  cl_csig : o_csig o <> 0 -> In (o_csig o) (k_sigs sk) /\ (k_sigs ck = [] \/ In (o_csig o) (k_sigs ck)) /\
+                             o_client_cert o = true /\
                              sig_fits (v =? v13) (c_key (k_cfg ck)) (o_csig o) = true;
   cl_srtp : o_srtp o <> 0 ->
             o_srtp o = f_srtp f /\ In (o_srtp o) (c_srtp (k_cfg ck)) /\ o_mki_client o = f_mki_echo f /\
@@ -548,7 +559,7 @@ Proof.
       apply client_auth_sig_spec in E7.
       constructor; outproj; rewrite ?Hv; try tauto; try congruence; try reflexivity; try (repeat split; congruence).
       all: try (intros _ _ _; apply orb_true_iff in E6; destruct E6 as [E6|E6]; [now left | right; now apply mem_In]).
-      all: try (intro Hc; destruct E7 as [[_ Hz]|[Hb [_ [_ [Hin Hfit]]]]]; [congruence | tauto]).
+      all: try (intro Hc; destruct E7 as [[_ Hz]|[Hb [_ [_ [Hin [Hown Hfit]]]]]]; [congruence | tauto]).
     + inversion H; subst; clear H. constructor; outproj; rewrite ?Hv; try tauto; try congruence; try reflexivity; try (repeat split; congruence).
       intros _ _ [Hc|Hc]; [congruence | discriminate].
 Qed.
@@ -608,7 +619,7 @@ Record in_policy_conn (ck sk : conn) (o : outcome) : Prop := {
   ip_group : o_group o <> 0 -> In (o_group o) (k_curves ck) /\ In (o_group o) (k_curves sk);
   ip_sig : o_sig o <> 0 -> In (o_sig o) (k_sigs ck) /\ In (o_sig o) (k_sigs sk) /\
                            sig_fits (o_version o =? v13) (c_key (k_cfg sk)) (o_sig o) = true;
-  ip_csig : o_csig o <> 0 -> In (o_csig o) (k_sigs sk) /\
+  ip_csig : o_csig o <> 0 -> In (o_csig o) (k_sigs sk) /\ (k_sigs ck = [] \/ In (o_csig o) (k_sigs ck)) /\
                              sig_fits (o_version o =? v13) (c_key (k_cfg ck)) (o_csig o) = true;
   ip_chain : o_server_cert o = true -> o_resumed o = false ->
              c_skip_verify (k_cfg ck) = true \/ In (c_chain_sig (k_cfg sk)) (cert_algs ck);
@@ -707,7 +718,7 @@ Proof.
   - repeat split; assumption.
   - intros _. split; [exact (hello_groups_client ck h _ gs Hh G3 G4) | exact G1].
   - intros _. repeat split; assumption.
-  - intro Hn. destruct (cl_csig0 Hn) as [X1 [_ X3]]. now split.
+  - intro Hn. destruct (cl_csig0 Hn) as [X1 [X2 [_ X3]]]. repeat split; assumption.
   - intros Hc Hr. apply cl_chain0; [exact Hc | exact Hr | now right].
   - intro Hn. destruct (cl_srtp0 Hn) as [Y1 [Y2 _]]. split; [exact Y2|].
     rewrite Y1 in *. now destruct (S6 Hn) as [Z _].
@@ -746,7 +757,7 @@ Proof.
     exact (hello_groups_client ck h _ gs Hh Eg (G3 gs eq_refl)).
   - intro Hn. destruct (cl_sig0 Hn) as [X1 X2]. rewrite X1 in *. destruct (S6 Hn) as [Y1 Y2].
     repeat split; assumption.
-  - intro Hn. destruct (cl_csig0 Hn) as [X1 [_ X3]]. now split.
+  - intro Hn. destruct (cl_csig0 Hn) as [X1 [X2 [_ X3]]]. repeat split; assumption.
   - intros Hc Hr. rewrite K2 in Hc. rewrite K1 in Hr. apply cl_chain0; [now rewrite K2 | now rewrite K1 |].
     left. now destruct (S7 Hc) as [_ [Hauth _]].
   - intro Hn. destruct (cl_srtp0 Hn) as [Y1 [Y2 _]]. split; [exact Y2|].
@@ -1009,13 +1020,23 @@ Proof.
     intro H. injection H as H1. intros s Hs. rewrite <- H1 in Hs. apply filter_In in Hs. tauto.
 Qed.
 
+Lemma parse_sigs_nonempty l out : parse_sigs l = Some out -> out <> [].
+Proof.
+  unfold parse_sigs. destruct l as [|a l].
+  - intro H. inversion H. unfold g11_default_sigs. discriminate.
+  - remember (a :: l) as l0 eqn:El0. destruct (forallb sig_known l0); [|discriminate].
+    destruct (filter (fun s => negb (sig_insecure s)) l0) as [|b t]; [discriminate|].
+    intro H. inversion H. discriminate.
+Qed.
+
 Record built_from (c : cfg) (k : conn) : Prop := {
   bf_cfg : k_cfg k = c;
   bf_wf : conn_wf k;
   bf_range : version_allowed c (k_min k) /\ version_allowed c (k_max k);
   bf_suites : forall s, In s (k_suites k) -> suite_enabled c s;
   bf_curves : k_curves k = eff_curves c;
-  bf_sigs : forall s, In s (k_sigs k) -> sig_allowed c s
+  bf_sigs : forall s, In s (k_sigs k) -> sig_allowed c s;
+  bf_sigs_nonempty : k_sigs k <> []
 }.
 
 Lemma build_spec b c k : build b c = Some k -> built_from c k.
@@ -1036,6 +1057,7 @@ Proof.
   - intros s Hs. now destruct (parse_suites_spec _ _ _ _ Es s Hs).
   - intros s Hs. unfold sig_allowed. pose proof (parse_sigs_spec _ _ Eg s Hs) as Hp.
     destruct (c_sigs c); exact Hp.
+  - exact (parse_sigs_nonempty _ _ Eg).
 Qed.
 
 (* ------------------------------------------------------------------ C11 in_policy, stated on the two option sets *)
@@ -1047,7 +1069,8 @@ Record in_policy (c s : cfg) (o : outcome) : Prop := {
   pol_group : o_group o <> 0 -> In (o_group o) (eff_curves c) /\ In (o_group o) (eff_curves s);
   pol_sig : o_sig o <> 0 -> sig_allowed c (o_sig o) /\ sig_allowed s (o_sig o) /\
                             sig_fits (o_version o =? v13) (c_key s) (o_sig o) = true;
-  pol_csig : o_csig o <> 0 -> sig_allowed s (o_csig o);
+  pol_csig : o_csig o <> 0 -> sig_allowed c (o_csig o) /\ sig_allowed s (o_csig o) /\
+                              sig_fits (o_version o =? v13) (c_key c) (o_csig o) = true;
   pol_srtp : o_srtp o <> 0 -> In (o_srtp o) (c_srtp c) /\ In (o_srtp o) (c_srtp s);
   pol_alpn : o_alpn o <> 0 -> In (o_alpn o) (c_alpn c) /\ In (o_alpn o) (c_alpn s);
   pol_ems : requires_ems c = true \/ requires_ems s = true -> o_ems o = true;
@@ -1075,7 +1098,8 @@ Proof.
   - intro Hn. destruct (P3 Hn) as [A B]. rewrite (bf_curves _ _ Ec) in A. rewrite (bf_curves _ _ Es) in B. now split.
   - intro Hn. destruct (P4 Hn) as [A [B C]]. repeat split; try assumption;
       [exact (bf_sigs _ _ Ec _ A) | exact (bf_sigs _ _ Es _ B)].
-  - intro Hn. destruct (P5 Hn) as [A _]. exact (bf_sigs _ _ Es _ A).
+  - intro Hn. destruct (P5 Hn) as [A [B C]]. split; [|split; [exact (bf_sigs _ _ Es _ A) | exact C]].
+    destruct B as [B|B]; [exfalso; exact (bf_sigs_nonempty _ _ Ec B) | exact (bf_sigs _ _ Ec _ B)].
   - exact P7.
   - exact P8.
   - exact P9.
@@ -1154,36 +1178,87 @@ Proof.
   vm_compute. reflexivity.
 Qed.
 
-(* (2) DTLS 1.3 with an RSA key: the only schemes selection accepts cannot be encoded in CertificateVerify *)
+(* (2) formerly refuted, repaired in /repo ("encode RSA-PSS schemes in CertificateVerify"): every scheme a
+   selection can return for some key type, on either version, is one CertificateVerify can carry - so the
+   [RSilent] branches of server13 / client13 are dead for the regenerated table ... *)
+Definition table_selectable_encodable : bool :=
+  forallb (fun p => let '(id, (_, k12, k13, e)) := p in implb (nonempty k12 || nonempty k13) e) g11_sigs.
+
+Lemma table_selectable_encodable_ok : table_selectable_encodable = true.
+Proof. vm_compute. reflexivity. Qed.
+
+Theorem selectable_schemes_are_encodable is13 key id :
+  sig_fits is13 key id = true -> sig_encodable id = true.
+Proof.
+  unfold sig_fits, sig_encodable, sig_info. destruct (lookup id g11_sigs) as [[[[i k12] k13] e]|] eqn:E; [|discriminate].
+  intro H. apply lookup_In in E. pose proof table_selectable_encodable_ok as T. unfold table_selectable_encodable in T.
+  rewrite forallb_forall in T. specialize (T _ E). cbn in T.
+  assert (Hn : nonempty k12 || nonempty k13 = true).
+  { destruct is13; apply mem_In in H; [apply orb_true_iff; right | apply orb_true_iff; left];
+      apply nonempty_exists; eauto. }
+  rewrite Hn in T. exact T.
+Qed.
+
+(* ... and a DTLS 1.3 server with an RSA key completes, signing with RSA-PSS (the client's preference order
+   over the common schemes decides: rsa_pss_rsae_sha256 for two default lists) *)
 Definition w_rsa13_c : cfg :=
   mkCfg 3 3 None false false 0 1027 0 false [] [] [] 0 [] [] [] None false false.
 Definition w_rsa13_s : cfg :=
   mkCfg 3 3 None false false 3 1027 0 false [] [] [] 0 [] [] [] None false false.
 
-Theorem rsa_dtls13_fails_silently_refuted :
-  negotiate w_rsa13_c w_rsa13_s false = Some (Silent Server) /\
-  (forall x, In x g11_default_sigs -> sig_fits true 3 x = true -> sig_encodable x = false).
+Theorem rsa_dtls13_completes_with_pss :
+  exists o, negotiate w_rsa13_c w_rsa13_s false = Some (Ok o) /\ o_version o = v13 /\ o_sig o = 2052.
+Proof. eexists. vm_compute. repeat split. Qed.
+
+(* neither side ever gives up silently over the signature scheme: the only silent exits left in the
+   composition are the empty suite lists of HandshakeContext *)
+Lemma rbind_silent {A B} (r : res A) (f : A -> res B) :
+  rbind r f = RSilent -> r = RSilent \/ exists a, r = ROk a /\ f a = RSilent.
+Proof. destruct r as [a| |]; cbn; [eauto | discriminate | auto]. Qed.
+
+Lemma req_not_silent b a : req b a <> RSilent.
+Proof. unfold req. destruct b; discriminate. Qed.
+
+Lemma of_opt_not_silent {A} (o : option A) a : of_opt o a <> RSilent.
+Proof. destruct o; discriminate. Qed.
+
+Ltac sstep H a E :=
+  apply rbind_silent in H; destruct H as [ H | [ a [ E H ] ] ];
+  [ exfalso; first [ exact (req_not_silent _ _ H) | exact (of_opt_not_silent _ _ H)
+                   | exact (negotiate_srtp_not_silent _ _ _ H) ] | ].
+
+Lemma server13_never_silent k ss h : server13 k ss h <> RSilent.
 Proof.
-  split; [vm_compute; reflexivity|].
-  intros x Hx. unfold g11_default_sigs in Hx. cbn in Hx.
-  repeat (destruct Hx as [Hx|Hx]; [subst x; vm_compute; intro; congruence|]). destruct Hx.
+  unfold server13. cbv zeta. intro H.
+  sstep H u0 E0. sstep H suite E1. sstep H u2 E2. sstep H u3 E3. sstep H u4 E4.
+  sstep H group E5. sstep H u6 E6. sstep H u7 E7. sstep H sg E8. sstep H tr E9.
+  destruct tr as [[profile echo] peer]. cbn beta iota in H.
+  apply of_opt_ok in E8. apply select_sig_some in E8. destruct E8 as [_ E8].
+  rewrite (selectable_schemes_are_encodable _ _ _ E8) in H. cbn in H. discriminate.
 Qed.
 
-(* (3) "signature schemes are ones both honest sides allow": the client's CertificateVerify uses a scheme
-   taken from the SERVER's list only *)
+(* (3) formerly refuted, repaired in /repo ("sign the client's CertificateVerify with a scheme its own policy
+   allows"): the scheme now comes from CommonSignatureSchemes(server's CertificateRequest list, client's list);
+   the positive statement is the [pol_csig] clause of [in_policy].  The former witness pair now signs with a
+   scheme of the client's own list (ecdsa_secp384r1_sha384, the first of the server's list the client allows) *)
 Definition w_csig_c : cfg :=
   mkCfg 0 0 None false false 2 1027 0 true [] [1283; 2055] [] 0 [] [] [] None false false.
 Definition w_csig_s : cfg :=
   mkCfg 0 0 None false false 1 1027 2 false [] [] [] 0 [] [] [] None false false.
 
-Theorem client_signature_outside_own_policy_refuted :
-  exists c s o, negotiate c s false = Some (Ok o) /\ o_csig o <> 0 /\ ~ sig_allowed c (o_csig o).
-Proof.
-  exists w_csig_c, w_csig_s.
-  destruct (negotiate w_csig_c w_csig_s false) as [[o| |]|] eqn:E; try (vm_compute in E; discriminate).
-  exists o. split; [reflexivity|]. vm_compute in E. inversion E; subst o. cbn. split; [discriminate|].
-  unfold sig_allowed. cbn. intros [H|[H|[]]]; discriminate.
-Qed.
+Theorem client_signature_within_both_policies c s seeded o :
+  negotiate c s seeded = Some (Ok o) -> o_csig o <> 0 ->
+  sig_allowed c (o_csig o) /\ sig_allowed s (o_csig o) /\ sig_fits (o_version o =? v13) (c_key c) (o_csig o) = true.
+Proof. intros H Hn. apply in_policy_holds in H. exact (pol_csig _ _ _ H Hn). Qed.
+
+Theorem client_signature_former_witness :
+  exists o, negotiate w_csig_c w_csig_s false = Some (Ok o) /\ o_csig o = 1283 /\ sig_allowed w_csig_c (o_csig o).
+Proof. eexists. split; [vm_compute; reflexivity|]. cbn. split; [reflexivity|]. unfold sig_allowed. cbn. auto. Qed.
+
+(* the peer's (server's) order decides among the common schemes; a client with an empty list allows all *)
+Theorem client_signature_server_order remote local x :
+  In x (common_sigs remote local) <-> In x remote /\ (local = [] \/ In x local).
+Proof. exact (common_sigs_In remote local x). Qed.
 
 (* (4) ALPN on DTLS 1.3: disjoint lists complete, nothing is negotiated *)
 Definition w_alpn_c : cfg :=
